@@ -203,6 +203,10 @@ func runC19(ci interface{}, a *run.Acc) {
 		fail("engine-leak", fmt.Sprintf("fault-free run: %d native objects alive, %d before the call", live, base))
 		return
 	}
+	if m := engineMisuse(); m != "" {
+		fail("engine-misuse", "fault-free run: "+m)
+		return
+	}
 	var ops []string
 	for o := range counts {
 		if o != "Close" && o != "Search" && o != "SearchWithoutIDs" && o != "SearchWithIDs" {
@@ -215,6 +219,7 @@ func runC19(ci interface{}, a *run.Acc) {
 			faiss.Ctl.Reset()
 			faiss.Ctl.FailAt(o, n)
 			seg, path, err := op()
+			misuse := faiss.Ctl.Errors() // before Reset, which clears them
 			faiss.Ctl.Reset()
 			a.Eval(1)
 			a.NonTrivial(fmt.Sprintf("%d/%s/%d", c.Scenario, o, n))
@@ -244,8 +249,10 @@ func runC19(ci interface{}, a *run.Acc) {
 				faiss.Ctl.ForgetLive()
 				return
 			}
-			if errs := faiss.Ctl.Errors(); len(errs) > 0 {
-				fail("engine-misuse:"+o, fmt.Sprintf("%s: %v", desc, errs))
+			misuse = append(misuse, faiss.Ctl.Errors()...)
+			faiss.Ctl.TakeMisuse()
+			if len(misuse) > 0 {
+				fail("engine-misuse:"+o, fmt.Sprintf("%s: %v", desc, misuse))
 				return
 			}
 		}
